@@ -49,6 +49,44 @@ pub fn record(job: &Job, args: &[String]) -> String {
     }
 }
 
+/// v2: a root file that includes 2-4 files with the SAME byte layout (names of equal length at equal offsets,
+/// global and nested labels, constants), so that anything keyed on a byte range without the file, or on an
+/// equal value, ties across files; observed through the symbol-table formats.
+pub fn gen_twins(t: &mut Tape) -> Job {
+    let n = t.urange(2, 4);
+    let mut files: Vec<(String, Vec<u8>)> = Vec::new();
+    let mut root = String::new();
+    let banked = t.flip();
+    if banked {
+        root.push_str("#bankdef prg\n{\n    #addr 0x8000\n    #size 0x4000\n    #outp 8 * 0x10\n}\n");
+    }
+    let shape = t.draw(3);
+    let order: Vec<usize> = {
+        let mut v: Vec<usize> = (0..n).collect();
+        for i in (1..v.len()).rev() {
+            let j = t.below(i + 1);
+            v.swap(i, j);
+        }
+        v
+    };
+    for &i in &order {
+        let dir = if t.chance(1, 3) { "lib/" } else { "" };
+        let name = format!("{}unit{}.asm", dir, i);
+        root.push_str(&format!("#include \"{}\"\n", name));
+        let text = match shape {
+            0 => format!("m{i}_init:\n#d8 {i}\nm{i}_send:\n#d8 {i}, {i}\n.loop:\n#d8 0\n", i = i),
+            1 => format!("c{i}_base = 0x10\nc{i}_size = 0x10\nt{i}:\n#d16 c{i}_base\n.x:\n..y:\n#d8 {i}\n", i = i),
+            _ => format!("v{i}:\n#d8 {i}\n#d8 {i}\nw{i}:\n.a = {i}\n.b = {i}\n#d8 0xff\n", i = i),
+        };
+        files.push((name, text.into_bytes()));
+    }
+    root.push_str("main:\n#d8 0xee\n");
+    files.push(("main.asm".to_string(), root.into_bytes()));
+    Job { origin: "twins".into(), files, root: "main.asm".into(), generated: true }
+}
+
+pub const TWIN_SET: &[&str] = &["symbols", "mesen-mlb", "addrspan", "annotated"];
+
 fn first_difference(a: &str, b: &str) -> String {
     for (la, lb) in a.lines().zip(b.lines()) {
         if la != lb {
@@ -63,7 +101,7 @@ impl Property for C10 {
         "C10"
     }
     fn rule(&self) -> String {
-        "each case = one job (generated size-static or cascading program with many sibling symbols and rules, corpus program, or mutated corpus program; failing programs included) x one \
+        "each case = one job (generated size-static or cascading program with many sibling symbols and rules, corpus program, mutated corpus program, or - one in six - a root file including 2-4 files with the same byte layout so that equal byte ranges and equal values tie across files; failing programs included) x one \
          command line with up to 5 output groups drawn from fixed format sets (incl. symbols, mesen-mlb, annotated, addrspan, and command lines with several invalid format parameters) run \
          4 times in one process: on the worker thread, on a fresh thread, and on both again after a random history of 1-3 other jobs; every 40th case additionally runs the real binary 3 \
          times in fresh processes (stdout, stderr, exit status, files) and compares the files with the in-process run. Oracle: the full record - success flag, printed diagnostics, every \
@@ -84,14 +122,20 @@ impl Property for C10 {
         tier.pick(8_000, 150_000)
     }
     fn run(&self, t: &mut Tape, ctx: &mut CaseCtx) -> Verdict {
-        let job = if t.chance(1, 2) {
+        let twins = crate::engine::gen_version() >= 2 && t.chance(1, 6);
+        let job = if twins {
+            gen_twins(t)
+        } else if t.chance(1, 2) {
             let (prog, _) = crate::props::c02::gen_cascade(t, 24);
             let (src, _) = crate::model::program::render(&prog);
             Job { origin: "cascade".into(), files: vec![("main.asm".into(), src.into_bytes())], root: "main.asm".into(), generated: true }
         } else {
             gen_job(t)
         };
-        let set = FORMAT_SETS[t.weighted(&[4, 4, 4, 1, 1, 1])];
+        let set = if twins { TWIN_SET } else { FORMAT_SETS[t.weighted(&[4, 4, 4, 1, 1, 1])] };
+        if twins {
+            ctx.label("twins");
+        }
         let extra: Vec<String> = match t.weighted(&[6, 1, 1]) {
             0 => vec![],
             1 => vec!["-t3".into()],
@@ -108,7 +152,7 @@ impl Property for C10 {
         let text = job.files.iter().find(|f| f.0 == job.root).map(|f| String::from_utf8_lossy(&f.1).to_string()).unwrap_or_default();
         let nsym = text.lines().filter(|l| l.trim_end().ends_with(':') || l.contains(" = ")).count();
         let ndiag = r0.matches("error:").count();
-        ctx.nontrivial = nsym >= 8 || ndiag >= 2 || set.len() == 1;
+        ctx.nontrivial = nsym >= 8 || ndiag >= 2 || set.len() == 1 || twins;
         ctx.label(if r0.starts_with("ok=true") { "succeeds" } else { "fails" });
         ctx.render(|| json!({"job": job_json(&job), "args": args}));
         let fail = |ctx: &mut CaseCtx, how: &str, a: &str, b: &str| -> Verdict {
